@@ -8,7 +8,7 @@ PROP = dict(
         "to text by the Lean driver, every encoded document is observed by decoding it again with the strict decoder)",
         "YAML has no Lean model of its own: it shares ToArrai/FromArrai with JSON; the YAML check is the tree-level "
         "theorems plus correspondence on generated documents (flow style, double-quoted strings)",
-        "encoding/csv is modelled at character level for the default configuration (Csv.writeAll = Writer.Write/"
+        "encoding/csv is modelled at character level, parametric in the separator, other options default (crlf, comment, lazyQuotes, trimLeadingSpace, fieldsPerRecord are exercised as implementation-side round-trip laws only) (Csv.writeAll = Writer.Write/"
         "fieldNeedsQuotes, Csv.parse = Reader.readRecord/readLine as a state machine); the model is validated by the "
         "correspondence run on encoded matrices and on random raw CSV text; UTF-8 is assumed transparent to its rules",
         "values are modelled by Go representation type (Arrai.C13.R, one constructor per type the Go type switches "
@@ -30,7 +30,7 @@ PROP = dict(
         "non-strict encoding are sets of integers (rel.ValueLess order of mixed sets is C06's subject)",
         "wire documents fed to UnmarshalFromJSON directly have distinct keys and no '@' attribute names "
         "(TupleBuilder.Finish panics on (@: non-number, @char: ...): C10 KF-pinned-panics)"],
-    level_text="Proof: 25 Lean theorems about the transliterated codecs - strict JSON/YAML decode then encode returns the "
+    level_text="Proof: 26 Lean theorems about the transliterated codecs - strict JSON/YAML decode then encode returns the "
                "(duplicate-free) document for ALL documents, decode.encode.decode = decode (strict: all documents; "
                "non-strict: documents without false/\"\"/[]/{}), strict encoding of a value without plain sets/offsets "
                "either fails or decodes back to the (tagged) value (and every decoded value lies in that class; the encoder has no panic site left), the wire format round-trips every value whose sets "
